@@ -348,9 +348,17 @@ def run_property(prop_id, tier="quick", seed=0, jobs=None, only=None, write_evid
                     units[(f, q)] = loader.unit_info(f, q)
                 except BaseException as e:  # noqa
                     units[(f, q)] = {"qualname": q, "file": f, "error": str(e)}
+        explo = {}
+        if bounded_out:
+            # what the bounded stand-ins explored (required keys for an exploration-level claim; informative otherwise)
+            explo = {"evaluations": sum(int(b.get("cases") or 0) for b in bounded_out),
+                     "distinct_nontrivial": sum(int(b.get("distinct_nontrivial") or 0) for b in bounded_out),
+                     "rule": getattr(mod, "EXPLORATION_RULE", "bounded stand-ins: see bounded_standins[*].method / bound; distinct_nontrivial is counted only by "
+                                                             "stand-ins that report it (0 otherwise: not measured)")}
         ev = {
             "property_id": prop_id, "tier": tier, "seed": int(seed), "level": getattr(mod, "LEVEL_CATEGORY", "proof"),
             "coverage": {
+                **explo,
                 "obligations": max(n_oblig, 0), "discharged": n_disch,
                 "checker_cmd": f"./check {prop_id} --tier {tier}",
                 "trusted_base": getattr(mod, "TRUSTED_BASE", []) + DEFAULT_TRUSTED,
@@ -364,7 +372,7 @@ def run_property(prop_id, tier="quick", seed=0, jobs=None, only=None, write_evid
                 "stale_known_findings": stale,
                 "shape_bounds": getattr(mod, "SHAPE_BOUNDS", {}),
                 "not_decided_clauses": getattr(mod, "NOT_DECIDED", []),
-                "samples": samples,
+                "samples": samples + [{"bounded_standin": b.get("unit"), "case": c} for b in bounded_out for c in (b.get("samples") or [])[:3]],
                 "harnesses": [{"name": r["harness"], "paths": r["paths"], "obligations": len(r["obligations"]),
                                "wall_s": round(r["wall"], 2), "error": r["error"]} for r in results],
             },
